@@ -67,6 +67,18 @@ partial def termToGo : Term → GoVal
     .ptr (some (.struct [(b "Head", true, .int 3), (b "Active", true, .ptr (some (.int 3))), (b "Name", true, .str (b "n")),
       (b "Next", true, .ptr (some (.struct [(b "Head", true, .int 4), (b "Active", true, .ptr (some (.int 3))),
         (b "Name", true, .str (b "m")), (b "Next", true, .ptr none)])))]))
+  | .list [.atom "NT", .atom "5"] =>
+    -- a map whose entries point into one another: a pointer to a struct, pointers to its first field, the struct again
+    .map [(b "again", .ptr (some (.struct [(b "Name", true, .str (b "Ann")), (b "Age", true, .int 3)]))),
+      (b "name", .ptr (some (.str (b "Ann")))),
+      (b "profile", .ptr (some (.struct [(b "Name", true, .str (b "Ann")), (b "Age", true, .int 3)]))),
+      (b "zname", .ptr (some (.str (b "Ann"))))]
+  | .list [.atom "NT", .atom "6"] =>
+    -- the same the other way round, and a pointer to the first element of an array next to the array's pointer
+    .map [(b "a_profile", .ptr (some (.struct [(b "Name", true, .str (b "Bo")), (b "Age", true, .int 4)]))),
+      (b "b_name", .ptr (some (.str (b "Bo")))),
+      (b "c_first", .ptr (some (.int 7))),
+      (b "d_all", .ptr (some (.slice [.int 7, .int 8])))]
   | .list [.atom "NT", .atom _] => .struct []
   | _ => .other "?"
 where
@@ -178,6 +190,10 @@ def doOp (cwd : Bytes) (h : HState) (op : Term) : HState × String :=
     let (w, r) := evaluateString h.w (hexOf s) (dataOf d)
     ({ h with w }, showEval r)
   | .list [.atom "EVF", .atom p, d] =>
+    let (w, r) := evaluateFile h.w (hexOf p) (dataOf d)
+    ({ h with w }, showEval r)
+  | .list [.atom "EVFR", .atom p, d] =>
+    -- a path relative to the working directory, which is the root of the model's file system
     let (w, r) := evaluateFile h.w (hexOf p) (dataOf d)
     ({ h with w }, showEval r)
   | _ => (h, "BADOP")
